@@ -21,7 +21,7 @@ import (
 
 func TestMain(m *testing.M) {
 	document.SetGlobalLevel(document.LogLevelSilent)
-	kit.TestMain(m, 900, 6000)
+	kit.TestMain(m, 2000, 30000)
 }
 
 func run(c Case) *kit.Result {
